@@ -333,15 +333,15 @@ Theorem recover_mixed_refused : forall ks last_id nrows,
 Proof. intros ks last_id nrows H1 H2. cbn. rewrite H1, H2. reflexivity. Qed.
 
 (* before the repairs (kept for the record): a listed NULL was taken as the key, a batch was not recovered *)
-Definition recover_prefix (listed : option (list key)) (last_id : Z) (nrows : nat) : option (list key) :=
+Definition recover_prefix (listed : option (list key)) (last_id : Z * Z) (nrows : nat) : option (list key) :=
   match listed with
   | Some ks => Some ks
-  | None => if Nat.eqb nrows 1 then Some [[VInt last_id]] else None
+  | None => if Nat.eqb nrows 1 then Some [[VInt (fst last_id)]] else None
   end.
 
 Theorem recover_prefix_refuted :
-  recover_prefix (Some [[VNull]]) 4%Z 1 = Some [[VNull]] /\ assigned_keys (Some [[VNull]]) 4%Z 1 = [[VInt 4%Z]]
-  /\ recover_prefix None 4%Z 2 = None.
+  recover_prefix (Some [[VNull]]) (4, 1)%Z 1 = Some [[VNull]] /\ assigned_keys (Some [[VNull]]) (4, 1)%Z 1 = [[VInt 4%Z]]
+  /\ recover_prefix None (4, 1)%Z 2 = None.
 Proof. repeat split; reflexivity. Qed.
 
 (* ---- the argument index of a key placeholder ---- *)
